@@ -45,7 +45,7 @@ RULE = ("dims: single dimensions, every kind x prior x transform, points on / ne
         "checked against the model of the CURRENT configuration before the first and after every switch. "
         "non-trivial = some dimension does arithmetic (log / normalize / label / onehot) or a point lies on a bound")
 
-F_TRANSFORM, F_PWARGS, F_INVERSE, F_INVERSE_TODAY, F_OK, F_TBOUNDS, F_TDIMS, F_INSPACE = 901, 902, 903, 904, 905, 906, 907, 908
+F_TRANSFORM, F_PWARGS, F_INVERSE, F_INVERSE_TODAY, F_OK, F_TBOUNDS, F_TDIMS, F_INSPACE, F_SWITCH = 901, 902, 903, 904, 905, 906, 907, 908, 909
 CLAUSES = {1: "shape_transform", 2: "transformed_in_bounds", 3: "shape_inverse", 4: "member", 5: "roundtrip_value"}
 U = Fraction(1, 2 ** 52)
 
@@ -97,14 +97,23 @@ def enc_dim(d):
     return [2, CK[d["ck"]], [q(tok[c]) for c in d["cats"]], CTR[d["tr"]]]
 
 
+REAL_DTYPES = {"float": float, "floatstr": "float", "np.float64": np.float64}
+INT_DTYPES = {"np.int64": np.int64, "int": int, "int64str": "int64"}
+
+
 def make_dim(d):
     from deephyper.skopt.space import Categorical, Integer, Real
 
     if d["kind"] == "real":
-        return Real(d["lo"], d["hi"], prior=d["prior"], base=d.get("base", 10), transform=d["tr"])
+        return Real(d["lo"], d["hi"], prior=d["prior"], base=d.get("base", 10), transform=d["tr"], dtype=REAL_DTYPES[d.get("dtype", "float")])
     if d["kind"] == "int":
-        return Integer(d["lo"], d["hi"], prior=d["prior"], base=d.get("base", 10), transform=d["tr"])
-    return Categorical(list(d["cats"]), transform=d["tr"])
+        return Integer(d["lo"], d["hi"], prior=d["prior"], base=d.get("base", 10), transform=d["tr"], dtype=INT_DTYPES[d.get("dtype", "np.int64")])
+    handed = list(d["cats"])
+    dim = Categorical(handed, transform=d["tr"])
+    # the caller keeps editing the list it handed over: the dimension must not see it (also after a later set_transformer)
+    handed.reverse()
+    handed.append("__not_a_category__")
+    return dim
 
 
 def describe_dim(dim):
@@ -166,6 +175,37 @@ def cell_to_model(d, tok, v):
     return fr(v)
 
 
+def type_ok(d, v):
+    """'integer and categorical values exactly': an integer is an integer (not 3.0, not True), a str a str, a bool a bool"""
+    if d["kind"] == "real":
+        return isinstance(v, (float, np.floating))
+    if d["kind"] == "int":
+        return isinstance(v, (int, np.integer)) and not isinstance(v, (bool, np.bool_))
+    if d["ck"] == "str":
+        return isinstance(v, (str, np.str_))
+    if d["ck"] == "bool":
+        return isinstance(v, (bool, np.bool_))
+    if d["ck"] == "int":
+        return isinstance(v, (int, np.integer)) and not isinstance(v, (bool, np.bool_))
+    return isinstance(v, (float, np.floating))
+
+
+def as_input(d, v, variant):
+    """the same point of the space written with another Python type of equal value"""
+    if variant == "np":
+        if isinstance(v, bool):
+            return np.bool_(v)
+        if isinstance(v, int):
+            return np.int64(v) if abs(v) < 2 ** 62 else v
+        if isinstance(v, float):
+            return np.float64(v)
+        if isinstance(v, str):
+            return np.str_(v)
+    if variant == "intreal" and d["kind"] == "real" and isinstance(v, float) and v == int(v) and abs(v) < 2 ** 53:
+        return int(v)
+    return v
+
+
 # ----------------------------------------------------------------------------------------------- tolerances
 def log_stats(d):
     b = float(d["base"])
@@ -198,6 +238,8 @@ def tol_fwd(d, mval):
         return 4 * ulp(mval)
     _, mt, wt = log_stats(d)
     if wt <= 0:
+        # the two log-bounds collapse to one binary64 value (adjacent bounds): the code takes its width-0 branch, the exact model
+        # does not; the warped coordinate is ill-conditioned there - only the oracle clauses (in bounds, round trip) apply
         return Fraction(1)
     return 4 * ulp(mval) + 8 * ulp(mt) / Fraction(wt) + 4 * ulp(1.0)
 
@@ -229,7 +271,7 @@ def res_base(dims, X):
     return dict(ok=True, kind="oracle", clause="", sig={}, nontrivial=bool(on_bound or arith), desc=desc)
 
 
-def run_space(dims, X, space=None, dim_level=False):
+def run_space(dims, X, space=None, dim_level=False, variant=None, feedback=True):
     """dims: list of dimension descriptions; X: rows (python values).  Returns the result dict."""
     from deephyper.skopt.space import Space
 
@@ -243,15 +285,53 @@ def run_space(dims, X, space=None, dim_level=False):
     sigx = {"cat_identity_int": has_ident_int, "rows_gt1": len(X) > 1}
 
     # ---- implementation ----
-    Xin = [list(r) for r in X]
-    Xt = space.transform(Xin)
+    import copy
+
+    Xin = [[as_input(d, v, variant) for d, v in zip(dims, r)] for r in X]
+    Xin0 = copy.deepcopy(Xin)
+    Xt_ret = space.transform(Xin)
+    if repr(Xin) != repr(Xin0):
+        return dict(res, ok=False, clause="input_mutated", sig=dict(sigx, clause="input_mutated"), detail=dict(after="transform", X=repr(Xin)[:500]))
+    Xt = np.array(Xt_ret, copy=True)
+    Xt_keep = Xt.copy()
     tb = space.transformed_bounds
     ntd = space.transformed_n_dims
     try:
-        X2 = space.inverse_transform(Xt)
+        X2_ret = space.inverse_transform(Xt)
     except (IndexError, KeyError, ValueError, TypeError) as e:
         return dict(res, ok=False, clause="inverse_raises:" + type(e).__name__, sig=dict(sigx, clause="inverse_raises:" + type(e).__name__),
                     detail=dict(error=repr(e), Xt=np.asarray(Xt).tolist(), model_of_pinned_code=today_model(m, dims, msp, X, Xt)))
+    if Xt.shape != Xt_keep.shape or Xt.tobytes() != Xt_keep.tobytes():
+        return dict(res, ok=False, clause="input_mutated", sig=dict(sigx, clause="input_mutated"), detail=dict(after="inverse_transform"))
+    X2 = [list(r) for r in X2_ret]
+    # the caller scribbles over what it got back; a second call with the same input must give the same answer
+    try:
+        if isinstance(Xt_ret, np.ndarray) and Xt_ret.flags.writeable and Xt_ret.dtype.kind in "fiu":
+            Xt_ret.fill(7)
+        for r in X2_ret:
+            if isinstance(r, list):
+                for k in range(len(r)):
+                    r[k] = None
+    except (ValueError, TypeError):
+        pass
+    Xt_again = np.asarray(space.transform(Xin))
+    if Xt_again.shape != Xt.shape or repr(Xt_again.tolist()) != repr(Xt.tolist()):
+        return dict(res, ok=False, clause="repeat_call", sig=dict(sigx, clause="repeat_call"), detail=dict(which="transform", first=Xt.tolist(), second=Xt_again.tolist()))
+    X2_again = space.inverse_transform(Xt)
+    if repr([list(r) for r in X2_again]) != repr(X2):
+        return dict(res, ok=False, clause="repeat_call", sig=dict(sigx, clause="repeat_call"), detail=dict(which="inverse_transform", first=repr(X2)[:600], second=repr(X2_again)[:600]))
+    if len(Xin) > 1:
+        # transform / inverse_transform act row by row: the same rows in another order give the same rows in that order
+        # (a result remembered from an earlier call of the same shape, or any dependence between rows, shows here)
+        Xt_rev = np.asarray(space.transform(Xin[::-1]))
+        if Xt_rev.shape != Xt.shape or repr(Xt_rev.tolist()) != repr(Xt[::-1].tolist()):
+            return dict(res, ok=False, clause="row_order", sig=dict(sigx, clause="row_order"), detail=dict(which="transform", rows=Xt.tolist(), reversed_input=Xt_rev.tolist()))
+        X2_rev = space.inverse_transform(Xt[::-1].copy())
+        if repr([list(r) for r in X2_rev]) != repr(X2[::-1]):
+            return dict(res, ok=False, clause="row_order", sig=dict(sigx, clause="row_order"), detail=dict(which="inverse_transform", rows=repr(X2)[:600], reversed_input=repr(X2_rev)[:600]))
+    bad = [(i, j, repr(v), type(v).__name__) for i, r in enumerate(X2) for j, (d, v) in enumerate(zip(dims, r)) if not type_ok(d, v)]
+    if bad:
+        return dict(res, ok=False, clause="value_type", sig=dict(sigx, clause="value_type", dimkey=dim_key(dims[bad[0][1]])), detail=dict(cells=bad[:5]))
     Xt = np.asarray(Xt)
     if Xt.ndim != 2:
         return dict(res, ok=False, clause="shape_transform", detail=dict(shape=list(Xt.shape)))
@@ -281,6 +361,19 @@ def run_space(dims, X, space=None, dim_level=False):
             detail.update(model_of_pinned_code=today_model(m, dims, msp, X, Xt))
             detail.update(rows_in=len(X), rows_t=int(Xt.shape[0]), rows_out=len(X2), n_dims=len(dims), t_dims=int(ntd))
         return dict(res, ok=False, clause=clause, sig=sig, detail=detail)
+
+    # ---- ask -> tell loop: what inverse_transform returned (numpy scalars) is a point of the space: it must go through again
+    if feedback:
+        Xt_b = np.asarray(space.transform([list(r) for r in X2]))
+        X3 = space.inverse_transform(Xt_b)
+        if Xt_b.ndim != 2:
+            return dict(res, ok=False, clause="feedback_shape_transform", detail=dict(shape=list(Xt_b.shape)))
+        X3_q = [[cell_to_model(d, t, v) for d, t, v in zip(dims, toks, row)] for row in X3]
+        code = m.call(F_OK, [msp, [[q(a), q(b)] for a, b in tb_q], [[q(a), q(b)] for a, b in tols],
+                             [[q(v) for v in r] for r in X2_q], [[q(fr(v)) for v in r] for r in Xt_b.tolist()], [[q(v) for v in r] for r in X3_q]])
+        if code != 0:
+            cl = "feedback_" + CLAUSES.get(code, "clause%d" % code)
+            return dict(res, ok=False, clause=cl, sig=dict(sigx, clause=cl), detail=dict(X2=repr(X2)[:600], Xt=Xt_b.tolist(), X3=repr(X3)[:600]))
 
     # ---- Dimension-level API agrees with the Space-level one (observe_at: Dimension.transform / inverse_transform) ----
     if dim_level:
@@ -357,7 +450,7 @@ def _tsize(d):
 
 
 def check_space(case):
-    return run_space(case["dims"], case["X"], dim_level=len(case["dims"]) == 1)
+    return run_space(case["dims"], case["X"], dim_level=len(case["dims"]) == 1, variant=case.get("variant"))
 
 
 def check_problem(case):
@@ -374,6 +467,13 @@ def check_problem(case):
             pb.add_hyperparameter((lo, hi, "log-uniform") if decl.get("log") else (lo, hi), name)
         else:
             pb.add_hyperparameter(list(decl), name)
+    if case.get("cond"):   # a conditional hyperparameter: the Space then carries the ConfigSpace (mixed population: conditional + unconditional)
+        import ConfigSpace as cs
+
+        child, parent, k = case["cond"]
+        php = pb.space[parent]
+        vals = list(getattr(php, "choices", None) or php.sequence)
+        pb.add_condition(cs.EqualsCondition(pb.space[child], php, vals[k % len(vals)]))
     space = convert_to_skopt_space(pb.space, surrogate_model=case["surrogate"])
     if case.get("normalize"):
         space.dimensions = normalize_dimensions(space.dimensions)
@@ -381,7 +481,10 @@ def check_problem(case):
     names = space.dimension_names
     by = dict(zip(names, dims))
     X = [[select(by[n], row[n]) for n in names] for row in case["X"]]
-    return run_space(dims, X, space=space)
+    r = run_space(dims, X, space=space)
+    if case.get("cond") and r.get("ok"):
+        r = dict(r, desc=list(r["desc"]) + ["conditional"])
+    return r
 
 
 def select(d, sel):
@@ -456,11 +559,21 @@ def gen_real(rng, tr=None, prior=None):
             hi = lo + 10.0 ** rng.uniform(-6, 6)
     if not (hi > lo):
         hi = near(rng, lo, 1)
-    return dict(kind="real", lo=lo, hi=hi, prior=prior, base=base, tr=tr)
+    return dict(kind="real", lo=lo, hi=hi, prior=prior, base=base, tr=tr, dtype=rng.choice(["float", "float", "floatstr", "np.float64"]))
 
 
 def real_point(rng, d):
     lo, hi = d["lo"], d["hi"]
+    if rng.random() < 0.12:
+        # a small but not ulp-sized margin from a bound (1e-6 .. 1e-13 of the width / of the value): equal to the bound for
+        # np.isclose-style comparisons, a different point for the property
+        eps = 10.0 ** -rng.randint(6, 13)
+        if d["prior"] == "log-uniform":
+            v = lo * (1 + eps) if rng.random() < 0.5 else hi * (1 - eps)
+        else:
+            w = hi - lo if math.isfinite(hi - lo) else max(abs(lo), abs(hi))
+            v = rng.choice([lo + w * eps, hi - w * eps, lo + abs(lo) * eps, hi - abs(hi) * eps])
+        return min(max(v, lo), hi)
     c = rng.random()
     if c < 0.2:
         return lo
@@ -481,7 +594,7 @@ def real_point(rng, d):
         v = math.exp(rng.uniform(math.log(lo), math.log(hi)))
     else:
         if c < 0.65 and lo <= 0.0 <= hi:
-            return 0.0
+            return 0.0 if c < 0.63 else -0.0
         if c < 0.7:
             v = lo / 2 + hi / 2
         else:
@@ -516,7 +629,7 @@ def gen_int(rng, tr=None, prior=None):
         else:
             lo = rng.randint(-1000, 1000)
             hi = lo + rng.randint(1, 10 ** rng.randint(1, 5))
-    return dict(kind="int", lo=lo, hi=hi, prior=prior, base=base, tr=tr)
+    return dict(kind="int", lo=lo, hi=hi, prior=prior, base=base, tr=tr, dtype=rng.choice(["np.int64", "np.int64", "int", "int64str"]))
 
 
 def int_point(rng, d):
@@ -597,7 +710,7 @@ def gen_dims_stream(count):
             X = gen_rows(rng, [d], n)
             if d["kind"] != "cat" and i % 3 == 0:  # both ends and their neighbours, always
                 X = ([[d["lo"]], [d["hi"]]] + X)[:50]
-            yield dict(dims=[d], X=X)
+            yield dict(dims=[d], X=X, variant=rng.choice([None, None, "np", "intreal"]))
     return gen
 
 
@@ -608,7 +721,7 @@ def gen_spaces_stream(count):
             nd = rng.randint(1, 8) if tier != "search" else rng.randint(1, 3)
             dims = [gen_dim(rng) for _ in range(nd)]
             n = rng.choice([1, 2, 3, 5, 10, 20, 50]) if tier != "search" else rng.randint(1, 4)
-            yield dict(dims=dims, X=gen_rows(rng, dims, n))
+            yield dict(dims=dims, X=gen_rows(rng, dims, n), variant=rng.choice([None, None, "np", "intreal"]))
     return gen
 
 
@@ -645,7 +758,12 @@ def gen_problem_stream(count):
                     c = rng.random()
                     row[name] = ["lo" if c < 0.2 else "hi" if c < 0.4 else "lo+" if c < 0.5 else "hi-" if c < 0.6 else "frac", rng.random(), rng.randint(0, 11)]
                 X.append(row)
-            yield dict(decls=decls, surrogate=rng.choice(["RF", "ET", "GP", None]), normalize=rng.random() < 0.5, X=X)
+            cond = None
+            parents = [nm for nm, dc in decls if isinstance(dc, list) and len(dc) >= 2]
+            if parents and len(decls) >= 2 and rng.random() < 0.3:
+                parent = rng.choice(parents)
+                cond = [rng.choice([nm for nm, _ in decls if nm != parent]), parent, rng.randint(0, 11)]
+            yield dict(decls=decls, surrogate=rng.choice(["RF", "ET", "GP", None]), normalize=rng.random() < 0.5, X=X, cond=cond)
     return gen
 
 
@@ -654,16 +772,18 @@ def shrink_space(case):
     dims, X = case["dims"], case["X"]
     for i in range(len(X)):
         if len(X) > 1:
-            yield dict(dims=dims, X=X[:i] + X[i + 1:])
+            yield dict(case, dims=dims, X=X[:i] + X[i + 1:])
+    if case.get("variant"):
+        yield dict(case, variant=None)
     for j in range(len(dims)):
         if len(dims) > 1:
-            yield dict(dims=dims[:j] + dims[j + 1:], X=[r[:j] + r[j + 1:] for r in X])
+            yield dict(case, dims=dims[:j] + dims[j + 1:], X=[r[:j] + r[j + 1:] for r in X])
     for j, d in enumerate(dims):
         if d["kind"] == "cat" and len(d["cats"]) > 1:
             used = {r[j] for r in X}
             for c in d["cats"]:
                 if c not in used:
-                    yield dict(dims=dims[:j] + [dict(d, cats=[k for k in d["cats"] if k != c])] + dims[j + 1:], X=X)
+                    yield dict(case, dims=dims[:j] + [dict(d, cats=[k for k in d["cats"] if k != c])] + dims[j + 1:], X=X)
                     break
 
 
@@ -676,7 +796,10 @@ def shrink_problem(case):
     for j in range(len(decls)):
         if len(decls) > 1:
             name = decls[j][0]
-            yield dict(case, decls=decls[:j] + decls[j + 1:], X=[{k: v for k, v in r.items() if k != name} for r in X])
+            yield dict(case, decls=decls[:j] + decls[j + 1:], X=[{k: v for k, v in r.items() if k != name} for r in X],
+                       cond=None if case.get("cond") and name in case["cond"][:2] else case.get("cond"))
+    if case.get("cond"):
+        yield dict(case, cond=None)
 
 # ----------------------------------------------------------------------------------------------- respace: one Space object, many configurations
 def allowed_tr(d):
@@ -687,7 +810,7 @@ def allowed_tr(d):
 
 def apply_step(space, dims, step):
     """performs one switch on the live Space object; returns the description of the configuration it must now have"""
-    from deephyper.skopt.space import Categorical, Integer, Real
+    from deephyper.skopt.space import Categorical, Integer, Real, Space
     from deephyper.skopt.utils import normalize_dimensions
 
     op = step[0]
@@ -707,6 +830,13 @@ def apply_step(space, dims, step):
         cls = {"real": Real, "int": Integer, "cat": Categorical}[step[1]]
         space.set_transformer_by_type(step[2], cls)
         return [dict(d, tr=step[2]) if d["kind"] == step[1] else d for d in dims]
+    if op == "noop":               # nothing switched: the same object is simply used again (other rows)
+        return dims
+    if op == "shared":             # a SECOND Space over the same Dimension objects is switched: the objects are shared, both follow
+        other = Space(list(space.dimensions))
+        other.set_transformer(list(step[1]))
+        other.inverse_transform(other.transform(step[2]))
+        return [dict(d, tr=t) for d, t in zip(dims, step[1])]
     if op == "reassign":           # space.dimensions = [new Dimension objects]
         new = [dict(d, tr=t) for d, t in zip(dims, step[1])]
         space.dimensions = [make_dim(d) for d in new]
@@ -714,38 +844,104 @@ def apply_step(space, dims, step):
     raise ValueError(op)
 
 
+def shorthand(d):
+    """the tuple / list notation check_dimension accepts, or None when the notation cannot express the dimension"""
+    if d["kind"] in ("real", "int") and d.get("dtype") in (None, "float", "np.int64"):
+        if d["prior"] == "uniform":
+            return (d["lo"], d["hi"]) if d["tr"] == "identity" else None
+        if d["tr"] == "identity":
+            return (d["lo"], d["hi"], "log-uniform") if d["base"] == 10 else (d["lo"], d["hi"], "log-uniform", d["base"])
+        return None
+    if d["kind"] == "cat" and d["tr"] == "onehot":
+        cats = d["cats"]
+        if d["ck"] in ("str", "bool") and len(cats) != 3 or d["ck"] in ("int", "float") and len(cats) >= 5:
+            return list(cats)
+    return None
+
+
+TRCODE = {"identity": 0, "label": 1, "onehot": 2, "normalize": 3}
+KINDCODE = {"real": 0, "int": 1, "cat": 2}
+
+
+def enc_switch(step):
+    """the step as a [switch] of Model.v (None: the step does not touch the configuration)"""
+    op = step[0]
+    if op == "space_all":
+        return [0, TRCODE[step[1]]]
+    if op == "normalize_dimensions":
+        return [0, TRCODE["normalize"]]
+    if op in ("space_list", "shared", "reassign"):
+        return [1, [TRCODE[t] for t in step[1]]]
+    if op == "dim":
+        return [2, step[1], TRCODE[step[2]]]
+    if op == "by_type":
+        return [3, KINDCODE[step[1]], TRCODE[step[2]]]
+    return None
+
+
 def check_respace(case):
+    import copy
+
     from deephyper.skopt.space import Space
 
     dims = [dict(d) for d in case["dims"]]
     X = case["X"]
-    space = Space([make_dim(d) for d in dims])
+    ctor = "objects"
+    if case.get("shorthand") and all(shorthand(d) is not None for d in dims):
+        ctor = "shorthand"
+        space = Space([shorthand(d) for d in dims])
+        got = [describe_dim(dm) for dm in space.dimensions]
+        want = [{k: v for k, v in d.items() if k != "dtype"} for d in dims]
+        if got != want:
+            return dict(res_base(dims, X), ok=False, kind="corr", clause="shorthand_dims", detail=dict(got=got, want=want))
+    else:
+        space = Space([make_dim(d) for d in dims])
     ops = []
     out = None
+    msp0, sw = [enc_dim(d) for d in dims], []
+    if case.get("inv_first"):
+        # the very first call on the object is inverse_transform (lazily created state must not need a transform first)
+        twin = Space([make_dim(d) for d in dims])
+        Xt0 = twin.transform([list(r) for r in X])
+        if repr(space.inverse_transform(Xt0)) != repr(twin.inverse_transform(Xt0)):
+            return dict(res_base(dims, X), ok=False, clause="repeat_call", sig={"clause": "repeat_call", "after": "inv_first"}, detail=dict(which="inverse_transform first"))
     for k in range(len(case["steps"]) + 1):
         if k > 0:
             step = case["steps"][k - 1]
-            dims = apply_step(space, dims, step)
+            if step[0] == "deepcopy":      # the optimizer / a worker continues with a copy of the object
+                space = copy.deepcopy(space)
+            else:
+                dims = apply_step(space, dims, step)
             ops.append(step[0])
-            if list(space.get_transformer()) != [d["tr"] for d in dims]:
+            if enc_switch(step) is not None:
+                sw.append(enc_switch(step))
+            want = model().call(F_SWITCH, [msp0, sw])     # Model.run_switches: the configuration the space must have now
+            if [TRCODE[t] for t in space.get_transformer()] != want or [TRCODE[d["tr"]] for d in dims] != want:
                 r = res_base(dims, X)
-                return dict(r, ok=False, kind="corr", clause="get_transformer", sig={"after": step[0]}, detail=dict(step=k, impl=list(space.get_transformer())))
+                return dict(r, ok=False, kind="corr", clause="get_transformer", sig={"after": step[0]}, detail=dict(step=k, impl=list(space.get_transformer()), model=want))
         # a different, non-empty selection of the rows at every step (1 row, all rows, a window)
         lo, n = case["rows"][k % len(case["rows"])]
         Xk = X[lo:lo + n] or X[:1]
-        r = run_space(dims, Xk, space=space, dim_level=True)
+        r = run_space(dims, Xk, space=space, dim_level=True, variant=case.get("variant"))
         if not r["ok"]:
             r["sig"] = dict(r.get("sig") or {}, after=(ops[-1] if ops else "fresh"), reused=k > 0)
             r["detail"] = dict(step=k, ops=ops, config=[d["tr"] for d in dims], inner=r.get("detail"))
             return r
         out = out or r
     out = dict(out)
-    out["desc"] = sorted(set(out["desc"])) + sorted(set("op=" + o for o in ops)) + ["steps=%d" % len(case["steps"])]
+    out["desc"] = sorted(set(out["desc"])) + sorted(set("op=" + o for o in ops)) + ["steps=%d" % len(case["steps"]), "ctor=" + ctor] + (["inv_first"] if case.get("inv_first") else [])
     out["nontrivial"] = len(ops) > 0
     return out
 
 
 def gen_step(rng, dims):
+    c0 = rng.random()
+    if c0 < 0.1:
+        return ["noop"]
+    if c0 < 0.18:
+        return ["deepcopy"]
+    if c0 < 0.28:
+        return ["shared", [rng.choice(allowed_tr(d)) for d in dims], gen_rows(rng, dims, rng.randint(1, 3))]
     c = rng.random()
     if c < 0.3:
         j = rng.randrange(len(dims))
@@ -775,12 +971,15 @@ def gen_respace_stream(count):
                 while len(c["cats"]) < 3:
                     c = gen_cat(rng, c["tr"], c["ck"])
                 dims[rng.randrange(nd)] = c
+            if i % 5 == 1:  # expressible in the tuple / list notation of check_dimension: the other way to build a Space
+                dims = [dict(d, tr="onehot" if d["kind"] == "cat" else "identity", dtype="float" if d["kind"] == "real" else "np.int64") if d["kind"] != "cat" or d["ck"] in ("str", "bool") and len(d["cats"]) != 3 else gen_real(rng, "identity") for d in dims]
+                dims = [dict(d, dtype="float") if d["kind"] == "real" else d for d in dims]
             n = rng.choice([1, 2, 3, 5, 10])
             X = gen_rows(rng, dims, n)
             steps = [gen_step(rng, dims) for _ in range(rng.randint(1, 5))]
             rows = [[rng.randrange(n), rng.randint(1, n)] for _ in range(3)] + [[0, n]]
             rng.shuffle(rows)
-            yield dict(dims=dims, X=X, steps=steps, rows=rows)
+            yield dict(dims=dims, X=X, steps=steps, rows=rows, variant=rng.choice([None, None, "np"]), inv_first=rng.random() < 0.2, shorthand=True)
     return gen
 
 
@@ -803,11 +1002,13 @@ def shrink_respace(case):
                     st.append(["dim", s_[1] - (1 if s_[1] > j else 0), s_[2]])
                 elif s_[0] in ("space_list", "reassign"):
                     st.append([s_[0], s_[1][:j] + s_[1][j + 1:]])
+                elif s_[0] == "shared":
+                    st.append([s_[0], s_[1][:j] + s_[1][j + 1:], [r[:j] + r[j + 1:] for r in s_[2]]])
                 elif s_[0] == "by_type" and not any(d["kind"] == s_[1] for k_, d in enumerate(dims) if k_ != j):
                     continue
                 else:
                     st.append(s_)
-            yield dict(dims=dims[:j] + dims[j + 1:], X=[r[:j] + r[j + 1:] for r in X], steps=st, rows=rows)
+            yield dict(case, dims=dims[:j] + dims[j + 1:], X=[r[:j] + r[j + 1:] for r in X], steps=st, rows=rows)
 
 
 def streams(tier):
